@@ -22,6 +22,7 @@ type Tier string
 type c11ncfg struct {
 	Tier
 	CaféURL string // a non-ASCII lower-case letter directly before an initialism
+	MenüIDKey string // ... and in the middle of a name
 	UserIDs  []string
 	HTTPPort int16
 	MaxQPS   int8
@@ -35,8 +36,8 @@ type c11ncfg struct {
 }
 
 func HarnessC11Names() {
-	all := []string{"USER_IDS", "HTTP_PORT", "MAX_QPS", "LABELS", "BACKEND_ALLOWED_IPS", "USER_ID", "CITIES", "GAIN", "TIER", "CAFÉ_URL", "RATIO", "TOKEN"}
-	decoys := []string{"L", "CAF_URL", "CAFÉURL", "CAFÉ_U_R_L", "USER_I_DS", "USER_ID_S", "USERIDS", "HTTPPORT", "H_T_T_P_PORT", "MAX_Q_P_S", "MAXQPS", "BACKEND_ALLOWED_I_PS", "ALLOWED_IPS"}
+	all := []string{"USER_IDS", "HTTP_PORT", "MAX_QPS", "LABELS", "BACKEND_ALLOWED_IPS", "USER_ID", "CITIES", "GAIN", "TIER", "CAFÉ_URL", "RATIO", "TOKEN", "MENÜ_ID_KEY"}
+	decoys := []string{"L", "MENÜID_KEY", "MENÜ_IDKEY", "CAF_URL", "CAFÉURL", "CAFÉ_U_R_L", "USER_I_DS", "USER_ID_S", "USERIDS", "HTTPPORT", "H_T_T_P_PORT", "MAX_Q_P_S", "MAXQPS", "BACKEND_ALLOWED_I_PS", "ALLOWED_IPS"}
 	clear := func() {
 		for _, n := range all {
 			zzverif.Unsetenv(n)
@@ -85,6 +86,7 @@ func HarnessC11Names() {
 	}
 	if hCafe {
 		zzverif.Setenv("CAFÉ_URL", "http://c/")
+		zzverif.Setenv("MENÜ_ID_KEY", "mk")
 	}
 	zzverif.Setenv("CITIES", "New York,Boston ")
 	zzverif.Setenv("GAIN", "0.1+0.2i")
@@ -126,6 +128,7 @@ func HarnessC11Names() {
 	if hCafe && !f("CaféURL").IsNil() {
 		zzverif.Assert(f("CaféURL").Elem().String() == "http://c/", "C11 CAFÉ_URL: wrong value")
 	}
+	zzverif.Assert(f("MenüIDKey").IsNil() == !hCafe, "C11 MENÜ_ID_KEY (non-ASCII letter before an initialism in the middle of a name): leaf set although its variable is absent (a decoy was read), or unset although present")
 	ct := f("Cities")
 	zzverif.Assert(!ct.IsNil() && ct.Len() == 2 && ct.Index(0).String() == "New York", "C11 CITIES: an unquoted list element containing a space did not arrive as written")
 	g := f("Gain")
